@@ -173,7 +173,7 @@ class Database(object):
 
     def create_collection(self, name, **kwargs):
         self._ensure_valid_collection_name(name)
-        if name in self.list_collection_names():
+        if name in self._get_created_collections():
             raise CollectionInvalid('collection %s already exists' % name)
 
         if kwargs:
